@@ -14,8 +14,12 @@
    Input = the attributes of the Task objects as Task.__init__ leaves them (task.py 205-241: task_dep
    holds the entries without '*', wild_dep the ones with; a loader's `executed` task is already appended
    to task_dep), in task_list order.  file_dep and calc_dep are Python sets: the lists here are their
-   iteration order.  Parsing of per-task command line options (init_options / pos_arg, control.py
-   159-173) is out of scope: a selection holds names, patterns and targets only. *)
+   iteration order.
+   Per-task command line arguments (add_filtered_task, control.py 153-174; Task.init_options, task.py
+   375-398) are modelled as far as they decide which elements of the command line are selection
+   elements: a task may declare `pos_arg` and options (`params`).  The VALUES parsed are not modelled.
+   Domain of the option model: a token starting with '-' is the exact spelling of a short ('-c') or
+   long ('--word') option, without '=value', clusters, '-' or '--'; valued options are of type str. *)
 From DoitV Require Export Base.
 Open Scope N_scope.
 
@@ -31,12 +35,14 @@ Record stask := {
   s_targets : list name;
   s_has_subtask : bool;
   s_subtask_of : option name;
-  s_loader : option loader }.
+  s_loader : option loader;
+  s_pos_arg : bool;                  (* task.pos_arg is not None *)
+  s_opts : list (name * bool) }.     (* spellings of the task's options ('-c', '--word'); true = takes a value *)
 
 Definition with_task_dep (t : stask) (td : list name) : stask :=
   {| s_task_dep := td; s_wild_dep := s_wild_dep t; s_setup := s_setup t; s_calc_dep := s_calc_dep t;
      s_file_dep := s_file_dep t; s_targets := s_targets t; s_has_subtask := s_has_subtask t;
-     s_subtask_of := s_subtask_of t; s_loader := s_loader t |}.
+     s_subtask_of := s_subtask_of t; s_loader := s_loader t; s_pos_arg := s_pos_arg t; s_opts := s_opts t |}.
 
 (* TaskControl.tasks: an OrderedDict name -> Task *)
 Definition table := list (name * stask).
@@ -75,6 +81,7 @@ Record ctl := { c_tasks : table; c_targets : tmap; c_order : list name }.   (* t
 Inductive result :=
 | RInitErr (e : ierr)                               (* TaskControl(...) raised *)
 | RNotFound (f : name)                              (* InvalidCommand(not_found=f) *)
+| RParseErr                                         (* CmdParseError from a task's option parser *)
 | ROk (tb : table) (tg : tmap) (selected : list name).
 
 Section Model.
@@ -84,6 +91,7 @@ Variable basename_of : name -> name.           (* s.split(':', 1)[0] *)
 Variable re_match : name -> name -> bool.      (* re_match regex s = bool(re.match(regex, s)) *)
 Variable regex_name : name -> name -> name.    (* regex_name f t = '_regex_target_<f>:<t>' *)
 Variable is_regex_name : name -> bool.         (* s.startswith('_regex_target') *)
+Variable is_opt : name -> bool.                (* s.startswith('-'): getopt takes it for an option *)
 
 (* _get_wild_tasks (136-142) *)
 Definition get_wild (order : list name) (pattern : name) : list name := filter (matches pattern) order.
@@ -156,11 +164,80 @@ Definition init (tb : table) : ierr + ctl :=
     end
   end.
 
-(* _process_filter (145-187) without task options: every pattern is replaced by the tasks it matches,
-   in definition order.  (add_filtered_task passes the rest of the command line through
-   Task.init_options, which returns it untouched when there is no option to parse.) *)
+(* the selection when nothing on the command line is an argument of a task: every pattern is replaced
+   by the tasks it matches, in definition order *)
 Definition expand_sel (order : list name) (sel : list name) : list name :=
   flat_map (fun f => if has_star f then get_wild order f else [f]) sel.
+
+(* _process_filter (145-187) with add_filtered_task (153-174).  The loop pops a name; a pattern adds the
+   tasks it matches, each through add_filtered_task((), name): the rest of the command line is NOT
+   offered to them; any other name is added through add_filtered_task(seq, name), which for a task
+     1. runs the_task.init_options(seq): the first time for this task object (task.options is None) the
+        task's option parser (getopt: stops at the first non-option) strips the leading option tokens,
+        an unknown option or a missing value raises CmdParseError; later calls return seq untouched;
+     2. if the task declares pos_arg and pos_arg_val is still None: pos_arg_val = the whole rest, seq = [].
+   State: the tasks whose options are initialised / whose pos_arg_val is set (a pattern does both to the
+   tasks it matches: options from (), pos_arg_val = ()).
+   The walk over the command line is an automaton so that the recursion is structural:
+   MName: next token is a name;  MOpts o sw: stripping options o of the task just named, sw = it takes the
+   rest as positional values afterwards;  MVal: the value of a valued option;  (swallowing = stop). *)
+Record pstate := { p_inited : list name; p_posset : list name }.
+Definition pstate0 : pstate := {| p_inited := []; p_posset := [] |}.
+Inductive mode := MName | MOpts (o : list (name * bool)) (sw : bool) | MVal (o : list (name * bool)) (sw : bool).
+
+Fixpoint opt_kind (o : list (name * bool)) (x : name) : option bool :=
+  match o with [] => None | (y, v) :: r => if y =? x then Some v else opt_kind r x end.
+
+Definition mark_glob (tb : table) (st : pstate) (w : list name) : pstate :=
+  fold_left (fun st x =>
+    match lookup tb x with
+    | Some t => {| p_inited := addset x (p_inited st);
+                   p_posset := if s_pos_arg t then addset x (p_posset st) else p_posset st |}
+    | None => st end) w st.
+
+(* what popping the name x does: (names added to filter_list, what the following tokens are, state);
+   None in second position = the rest of the command line is consumed (pos_arg) *)
+Definition name_action (order : list name) (tb : table) (st : pstate) (x : name)
+  : list name * option mode * pstate :=
+  if has_star x then (get_wild order x, Some MName, mark_glob tb st (get_wild order x))
+  else match lookup tb x with
+  | None => ([x], Some MName, st)
+  | Some t =>
+    let sw := s_pos_arg t && negb (mem x (p_posset st)) in
+    let st' := {| p_inited := addset x (p_inited st);
+                  p_posset := if sw then addset x (p_posset st) else p_posset st |} in
+    if mem x (p_inited st) then ([x], if sw then None else Some MName, st')
+    else ([x], Some (MOpts (s_opts t) sw), st')
+  end.
+
+(* None = CmdParseError *)
+Fixpoint process_filter (order : list name) (tb : table) (m : mode) (st : pstate) (seq : list name)
+  : option (list name * pstate) :=
+  match seq with
+  | [] => match m with MVal _ _ => None | _ => Some ([], st) end
+  | x :: r =>
+    let as_name :=
+      match name_action order tb st x with
+      | (emit, None, st') => Some (emit, st')
+      | (emit, Some m', st') =>
+        match process_filter order tb m' st' r with
+        | None => None
+        | Some (fl, st'') => Some (emit ++ fl, st'')
+        end
+      end in
+    match m with
+    | MName => as_name
+    | MVal o sw => process_filter order tb (MOpts o sw) st r
+    | MOpts o sw =>
+      if is_opt x then
+        match opt_kind o x with
+        | None => None
+        | Some false => process_filter order tb (MOpts o sw) st r
+        | Some true => process_filter order tb (MVal o sw) st r
+        end
+      else if sw then Some ([], st) else as_name
+    end
+  end.
 
 (* The code before the repair 3703f81, kept so that the defect stays stated (C12_repeat_legacy_refuted):
    Task.init_options returned the remaining arguments only the first time it ran on a task object and
@@ -188,7 +265,7 @@ Fixpoint process_filter_legacy (order : list name) (tb : table) (inited sel : li
 Definition placeholder (l : loader) (fd : list name) : stask :=
   {| s_task_dep := match l_executed l with Some e => [e] | None => [] end;
      s_wild_dep := []; s_setup := []; s_calc_dep := []; s_file_dep := fd; s_targets := [];
-     s_has_subtask := false; s_subtask_of := None; s_loader := Some l |}.
+     s_has_subtask := false; s_subtask_of := None; s_loader := Some l; s_pos_arg := false; s_opts := [] |}.
 
 (* 222-233: the delayed tasks whose target_regex matches (all of them under --auto-delayed-regex when
    they have no regex), in the order of tasks.values() *)
@@ -240,12 +317,20 @@ Fixpoint filter_list (auto : bool) (tg : tmap) (tb : table) (fl : list name) : n
     end
   end.
 
-(* _filter_tasks: (tasks', selected) or the name that was not found *)
-Definition filter_tasks (auto : bool) (c : ctl) (sel : list name) : name + (table * list name) :=
-  filter_list auto (c_targets c) (c_tasks c) (expand_sel (c_order c) sel).
+(* _filter_tasks: (tasks', selected) or the exception *)
+Inductive perr := PNotFound (f : name) | PParse.
+Definition filter_tasks (auto : bool) (c : ctl) (sel : list name) : perr + (table * list name) :=
+  match process_filter (c_order c) (c_tasks c) MName pstate0 sel with
+  | None => inl PParse
+  | Some (fl, _) =>
+    match filter_list auto (c_targets c) (c_tasks c) fl with
+    | inl f => inl (PNotFound f)
+    | inr r => inr r
+    end
+  end.
 
 (* process (253-264): None = no selection at all *)
-Definition process (auto : bool) (c : ctl) (sel : option (list name)) : name + (table * list name) :=
+Definition process (auto : bool) (c : ctl) (sel : option (list name)) : perr + (table * list name) :=
   match sel with
   | Some s => filter_tasks auto c s
   | None => inr (c_tasks c, c_order c)
@@ -282,7 +367,8 @@ Definition select_core (auto single : bool) (sel : option (list name)) (tb : tab
   | inl e => RInitErr e
   | inr c =>
     match process auto c sel with
-    | inl f => RNotFound f
+    | inl (PNotFound f) => RNotFound f
+    | inl PParse => RParseErr
     | inr (tb1, selected) =>
       ROk (if single then single_step tb1 selected else tb1) (c_targets c) selected
     end
@@ -310,6 +396,7 @@ Definition enc_result (r : result) : list Z :=
   match r with
   | RInitErr e => 1%Z :: enc_ierr e
   | RNotFound f => [2; zN f]%Z
+  | RParseErr => [4%Z]
   | ROk tb tg sel => (0%Z :: map zN sel) ++ (-1)%Z :: enc_table tb ++ (-2)%Z :: flat_map (fun fp => [zN (fst fp); zN (snd fp)]) tg
   end.
 (* what `doit run` shows of a failed selection is only the exit code 3 *)
